@@ -286,7 +286,8 @@ def run_worker(pid: str, tier: str, seed: int, shard: int, nshards: int, out: st
         ctx.classes[f"environment:{profile}:monitored-executions"] += ctx.evaluations
         snap = sys.modules.get("vmon.snapshot")
         if snap is not None:      # the route monitors inside snapshot.compare_tables: how often each was evaluated
-            for label, attr in (("route:mother-by-pdg-name", "ROUTE_COUNT"), ("route:tables-through-the-chain-query", "CHAIN_ROUTE_COUNT"), ("route:tables-as-printed", "PRINT_ROUTE_COUNT")):
+            for label, attr in (("route:mother-by-pdg-name", "ROUTE_COUNT"), ("route:tables-through-the-chain-query", "CHAIN_ROUTE_COUNT"), ("route:tables-as-printed", "PRINT_ROUTE_COUNT"),
+                                ("history:refused-failed-or-abandoned-calls-before-the-comparison", "UPSET_COUNT")):
                 if getattr(snap, attr, [0])[0]:
                     ctx.monitors[label] += getattr(snap, attr)[0]
         res = ctx.dump()
